@@ -103,12 +103,145 @@ pub assume_specification[ <[u8]>::eq_ignore_ascii_case ](a: &[u8], b: &[u8]) -> 
 // R15: a byte-string literal (A-lit-01: its bytes are those of the ASCII text)
 #[verifier::external_body]
 pub fn verif_bytes_lit(s: &'static str) -> (r: &'static [u8]) ensures r@ == ascii_bytes(s@) { unimplemented!() }
-// A-utf8-01: UTF-8 is self-synchronising (an ASCII byte never occurs inside a multi-byte character): the encoding of a text
-// ends with the bytes of an ASCII word, compared ignoring ASCII case, exactly when the text ends with that word ignoring case
-pub axiom fn axiom_ascii_suffix_utf8(s: Seq<char>, w: Seq<char>)
-    requires forall|i: int| 0 <= i < w.len() ==> (#[trigger] w[i] as u32) < 128
-    ensures ({ let b = vstd::utf8::encode_utf8(s); let wb = ascii_bytes(w);
-        (b.len() >= wb.len() && lower_bytes(b.skip(b.len() - wb.len())) == lower_bytes(wb)) <==> ends_with_spec(lower(s), lower(w)) });
+// UTF-8 is self-synchronising (an ASCII byte never occurs inside a multi-byte character): the encoding of a text ends with the
+// bytes of an ASCII word, compared ignoring ASCII case, exactly when the text ends with that word ignoring case.  PROVED here
+// from vstd's UTF-8 theory (encode_utf8_push, encode_scalar) by induction on the word - it used to be an assumption (A-utf8-01)
+pub open spec fn is_ascii_word(w: Seq<char>) -> bool { forall|i: int| 0 <= i < w.len() ==> (#[trigger] w[i] as u32) < 128 }
+pub open spec fn bytes_end(b: Seq<u8>, wb: Seq<u8>) -> bool { b.len() >= wb.len() && lower_bytes(b.skip(b.len() - wb.len())) == lower_bytes(wb) }
+use vstd::utf8::{encode_utf8, encode_scalar, encode_utf8_push};
+proof fn lemma_scalar_last(c: char)
+    ensures
+        encode_scalar(c as u32).len() >= 1,
+        (c as u32) < 128 ==> encode_scalar(c as u32) =~= seq![c as u8],
+        (c as u32) >= 128 ==> encode_scalar(c as u32).last() >= 128,
+{
+    let x = c as u32;
+    let e = encode_scalar(x);
+    if x < 128 {
+        assert(e.len() == 1);
+        assert(e[0] == (x & 0x7f) as u8);
+        assert((x & 0x7f) == x) by (bit_vector) requires x < 128;
+    } else if x < 0x800 {
+        assert(e.len() == 2);
+        assert(e[1] == 0x80u8 | ((x & 0x3f) as u8));
+        let y = (x & 0x3f) as u8;
+        assert((0x80u8 | y) >= 128) by (bit_vector);
+    } else if x < 0x10000 {
+        assert(e.len() == 3);
+        assert(e[2] == 0x80u8 | ((x & 0x3f) as u8));
+        let y = (x & 0x3f) as u8;
+        assert((0x80u8 | y) >= 128) by (bit_vector);
+    } else {
+        assert(e.len() == 4);
+        assert(e[3] == 0x80u8 | ((x & 0x3f) as u8));
+        let y = (x & 0x3f) as u8;
+        assert((0x80u8 | y) >= 128) by (bit_vector);
+    }
+}
+// ASCII characters and their bytes lower-case alike
+proof fn lemma_lower_ascii(c: char, d: char)
+    requires (c as u32) < 128, (d as u32) < 128
+    ensures
+        lower_byte(c as u8) == lower_char(c) as u8,
+        (lower_byte(c as u8) == lower_byte(d as u8)) <==> (lower_char(c) == lower_char(d)),
+        (lower_char(c) as u32) < 128,
+{
+}
+proof fn lemma_lower_char_ascii(c: char)
+    ensures (lower_char(c) as u32) < 128 ==> (c as u32) < 128, lower_byte(200u8) == 200u8
+{
+}
+proof fn lemma_empty()
+    ensures encode_utf8(Seq::<char>::empty()) =~= Seq::<u8>::empty()
+{
+}
+
+pub proof fn lemma_ascii_suffix_utf8(s: Seq<char>, w: Seq<char>)
+    requires is_ascii_word(w)
+    ensures bytes_end(encode_utf8(s), ascii_bytes(w)) <==> ends_with_spec(lower(s), lower(w))
+    decreases w.len()
+{
+    let b = encode_utf8(s);
+    let wb = ascii_bytes(w);
+    let n = w.len() as int;
+    if n == 0 {
+        assert(b.skip(b.len() as int) =~= Seq::<u8>::empty());
+        assert(lower_bytes(Seq::<u8>::empty()) =~= lower_bytes(wb));
+        assert(lower(s).skip(lower(s).len() as int) =~= lower(w));
+    } else if s.len() == 0 {
+        lemma_empty();
+        assert(s =~= Seq::<char>::empty());
+    } else {
+        let s1 = s.drop_last(); let cs = s.last();
+        let w1 = w.drop_last(); let cw = w.last();
+        assert(s =~= s1.push(cs));
+        assert(w =~= w1.push(cw));
+        encode_utf8_push(s1, cs);
+        let b1 = encode_utf8(s1);
+        let e = encode_scalar(cs as u32);
+        assert(b == b1 + e);
+        lemma_scalar_last(cs);
+        lemma_ascii_suffix_utf8(s1, w1);
+        let wb1 = ascii_bytes(w1);
+        assert(wb =~= wb1.push(cw as u8));
+        assert((cw as u32) < 128);
+        lemma_lower_char_ascii(cs);
+        // left to right
+        if bytes_end(b, wb) {
+            let t = b.skip(b.len() - n);
+            assert(lower_bytes(t).last() == lower_bytes(wb).last());
+            assert(lower_bytes(t).last() == lower_byte(t.last()));
+            assert(t.last() == b.last());
+            assert(b.last() == e.last());
+            assert(lower_bytes(wb).last() == lower_byte(cw as u8));
+            lemma_lower_ascii(cw, cw);
+            assert(lower_byte(cw as u8) < 128);
+            assert(lower_byte(e.last()) < 128);
+            assert(e.last() < 128);
+            assert((cs as u32) < 128);
+            assert(e =~= seq![cs as u8]);
+            assert(b =~= b1.push(cs as u8));
+            assert(b1.len() >= n - 1);
+            assert(b1.skip(b1.len() - (n - 1)) =~= t.drop_last());
+            assert(lower_bytes(t.drop_last()) =~= lower_bytes(t).drop_last());
+            assert(lower_bytes(wb1) =~= lower_bytes(wb).drop_last());
+            assert(bytes_end(b1, wb1));
+            assert(ends_with_spec(lower(s1), lower(w1)));
+            lemma_lower_ascii(cs, cw);
+            assert(lower_char(cs) == lower_char(cw));
+            assert(lower(s) =~= lower(s1).push(lower_char(cs)));
+            assert(lower(w) =~= lower(w1).push(lower_char(cw)));
+            assert(lower(s).skip(lower(s).len() - n) =~= lower(s1).skip(lower(s1).len() - (n - 1)).push(lower_char(cs)));
+            assert(ends_with_spec(lower(s), lower(w)));
+        }
+        // right to left
+        if ends_with_spec(lower(s), lower(w)) {
+            assert(lower(s) =~= lower(s1).push(lower_char(cs)));
+            assert(lower(w) =~= lower(w1).push(lower_char(cw)));
+            let u = lower(s).skip(lower(s).len() - n);
+            assert(u.last() == lower(w).last());
+            assert(u.last() == lower_char(cs));
+            assert(lower(w).last() == lower_char(cw));
+            lemma_lower_ascii(cw, cw);
+            assert((lower_char(cs) as u32) < 128);
+            assert((cs as u32) < 128);
+            assert(e =~= seq![cs as u8]);
+            assert(b =~= b1.push(cs as u8));
+            assert(lower(s1).skip(lower(s1).len() - (n - 1)) =~= u.drop_last());
+            assert(lower(w1) =~= lower(w).drop_last());
+            assert(ends_with_spec(lower(s1), lower(w1)));
+            assert(bytes_end(b1, wb1));
+            lemma_lower_ascii(cs, cw);
+            assert(lower_byte(cs as u8) == lower_byte(cw as u8));
+            let t = b.skip(b.len() - n);
+            assert(t =~= b1.skip(b1.len() - (n - 1)).push(cs as u8));
+            assert(lower_bytes(t) =~= lower_bytes(b1.skip(b1.len() - (n - 1))).push(lower_byte(cs as u8)));
+            assert(lower_bytes(wb) =~= lower_bytes(wb1).push(lower_byte(cw as u8)));
+            assert(bytes_end(b, wb));
+        }
+    }
+}
+
 '''
 
 KEYSPEC = r'''
@@ -320,7 +453,7 @@ def build():
     u._open_header = 'impl ValueEncoding for Binary {'
     u.fn(EN, 'is_valid_key', within='impl ValueEncoding for Binary',
          body_edits=ew + [lambda t: t.sub_code('R15', r'b"([a-z-]+)"', r'verif_bytes_lit("\1")')],
-         body_start='        proof { reveal_strlit("-bin"); assert(lower("-bin"@) =~= "-bin"@); axiom_ascii_suffix_utf8(key@, "-bin"@); assert(ascii_bytes("-bin"@).len() == 4); }',
+         body_start='        proof { reveal_strlit("-bin"); assert(lower("-bin"@) =~= "-bin"@); lemma_ascii_suffix_utf8(key@, "-bin"@); assert(ascii_bytes("-bin"@).len() == 4); }',
          ensures=[Clause('E1_a_key_is_binary_exactly_when_its_lower_case_form_ends_in_bin', 'r == Self::valid_key(key@)')])
     u.close('}')
 
